@@ -8,7 +8,7 @@ if ! git -C /repo diff --quiet; then echo "/repo is dirty"; exit 2; fi
 git -C /repo apply "$d/patch.diff" || { echo "patch does not apply"; exit 2; }
 trap 'git -C /repo checkout -- . ' EXIT
 for c in $checks; do
-  out=$(VERIF_SEED=${VERIF_SEED:-0} timeout 1500 python3 harness/check.py $c --tier quick 2>&1 | grep -v "^KNOWN" )
+  out=$(VERIF_NO_EVIDENCE=1 VERIF_SEED=${VERIF_SEED:-0} timeout 1500 python3 harness/check.py $c --tier quick 2>&1 | grep -v "^KNOWN" )
   v=$(echo "$out" | grep -c "^VIOLATION")
   nf=$(echo "$out" | grep "^VIOLATION" | grep -c "no-failing-input-found")
   echo "$c violations=$v (no-failing-input-found=$nf) :: $(echo "$out" | tail -1)"
